@@ -17,7 +17,7 @@ from sim.families.e5_capacity import ROOT, repo_dir, worker_env
 from sim.kernel import Choices, sha
 
 WORKER = os.path.join(ROOT, "sim", "histworker.py")
-TIMEOUT = 600
+TIMEOUT = 1800
 
 
 CHUNK = 1
